@@ -98,7 +98,7 @@ var wdStatus = map[bitcointypes.WithdrawalStatus]string{
 }
 
 func (st *BridgeState) sm(u uint64) int64 {
-	if u > 1<<30 {
+	if u > 2_100_000_000 {
 		st.Big++
 		return 0
 	}
